@@ -1,23 +1,34 @@
 """C11 - the topology depends on the chemistry of the input, not on its presentation.
 
-spec/PipelineEq.tla   relation between two runs abstracted from their output files: equal particle lists, equal interactions
-                      (as bags, numeric parameters within the last printed digit), coordinates related by the rigid motion
+spec/PipelineEq.tla   (I) relation between two runs abstracted from their output files: equal particle lists, equal
+                      interactions (as bags, numeric parameters within the last printed digit), coordinates related by the rigid
+                      motion; (II) relation between two runs recorded STAGE BY STAGE (presentation-free abstraction after every
+                      processor): the judge returns the first stage at which two presentations differ and how; (III) the only
+                      admissible differences are items lying numerically on a geometric threshold.
 spec/Trace_PipelineEq TLC judges pairs (base presentation, transformed presentation)
 
-Every run is a real `bin/martinize2` subprocess in a scratch directory; the output ITP / PDB are parsed by the independent
-readers.  Presentations: atoms re-ordered within their residues, hydrogens renamed, the structure rotated by a lattice
-rotation and translated (exact on the 0.001 A grid of the PDB format), a different PYTHONHASHSEED.  TLC is the relational
-oracle; the exploration of presentations is sampling (level: exploration)."""
+Two routes, both through the real command line:
+  cli     every run is a real `bin/martinize2` SUBPROCESS in a scratch directory (the only route on which PYTHONHASHSEED can
+          change); the output ITP / PDB are parsed by the independent readers;
+  stages  the real `entry()` of bin/martinize2 runs in-process in a freshly forked worker (harness/c11_stages.py), `run_system` of
+          every Processor subclass is wrapped and Abs(system) recorded after each stage; the files written by that run are
+          judged as on the cli route.
+Presentations: atoms re-ordered within their residues (`permute`), hydrogens renamed to fresh names in file order (`renameH`) or in
+shuffled order (`renameHs`), the names of the hydrogens on one heavy atom permuted (`swapH`), all hydrogen names of a residue
+permuted (`scrambleH`, only together with `-bonds-from distance`: with name-based bonds a name that belongs to another hydrogen
+states another chemistry), the structure rotated by a lattice rotation and translated (`motion`, exact on the 0.001 A grid of the
+PDB format), combinations, a different PYTHONHASHSEED.  Chain and residue order are kept.
+TLC is the relational oracle and localises; the exploration of presentations is sampling (level: exploration)."""
+import math
 import multiprocessing as mp
 import os
 import random
-import re
 import shutil
 import subprocess
 import sys
 import tempfile
 
-from . import common, tlc, indep_readers
+from . import common, tlc, indep_readers, c11_stages
 from .common import REPO
 
 PID = 'C11'
@@ -28,7 +39,12 @@ INPUTS = {
     'trpcage': os.path.join(DATA, 'tier-0', 'mini-protein3_trp-cage', 'aa.pdb'),
     'betasheet': os.path.join(DATA, 'tier-0', 'mini-protein1_betasheet', 'aa.pdb'),
     'helix': os.path.join(DATA, 'tier-0', 'mini-protein2_helix', 'aa.pdb'),
+    '1UBQ': os.path.join(DATA, 'tier-1', '1UBQ', 'aa.pdb'),
+    '3i40': os.path.join(DATA, 'tier-1', '3i40', '3i40.pdb'),
+    'lysozyme': os.path.join(DATA, 'tier-1', 'lysozyme', 'aa.pdb'),
+    '6LFO_gap': os.path.join(DATA, 'tier-1', '6LFO_gap', '6LFO_gap.pdb'),
 }
+TIER1 = ('1UBQ', '3i40', 'lysozyme', '6LFO_gap')       # crystal structures: no hydrogens, waters ignored
 OPTION_SETS = {
     'default': ['-ff', 'martini3001'],
     'elastic': ['-ff', 'martini3001', '-elastic', '-eu', '0.85'],
@@ -39,14 +55,64 @@ OPTION_SETS = {
     'cys': ['-ff', 'martini3001', '-cys', 'auto'],
     'nt': ['-ff', 'martini3001', '-nt'],
     'nt-m22': ['-ff', 'martini22', '-nt', '-elastic'],
+    # added with the stage-wise extension
+    'elastic-chain': ['-ff', 'martini3001', '-elastic', '-eunit', 'chain'],
+    'posres-all': ['-ff', 'martini3001', '-p', 'all'],
+    'cys03': ['-ff', 'martini3001', '-cys', '0.3'],
+    'ss-explicit': ['-ff', 'martini3001', '-ss', '@SS'],           # @SS: one letter per residue, generated from the input
+    'dist-bonds': ['-ff', 'martini3001', '-bonds-from', 'distance'],
+    'elastic-thr': ['-ff', 'martini3001', '-elastic', '-eu', '@EU'],   # @EU: exactly the length of the longest elastic bond of the base run
+    'cys-thr': ['-ff', 'martini3001', '-cys', '@CYS'],                 # @CYS: exactly the distance of the closest pair of SG atoms
 }
 ROTATIONS = [((1, 2, 3), (1, 1, 1)), ((2, 1, 3), (-1, 1, 1)), ((3, 1, 2), (1, 1, 1)), ((1, 3, 2), (1, -1, 1)), ((2, 3, 1), (1, 1, 1)),
              ((1, 2, 3), (-1, -1, 1))]
+IDENT = c11_stages.IDENT
+H_KINDS = ('renameH', 'renameHs', 'swapH', 'scrambleH')
 
 
-def parse_atoms(text):
-    lines = text.splitlines()
-    return lines
+# ------------------------------------------------------------------------------------------------------- presentations
+def _element(l):
+    l = l.ljust(80)
+    return l[76:78].strip() or l[12:16].strip().lstrip('0123456789')[:1]
+
+
+def _xyz(l):
+    return float(l[30:38]), float(l[38:46]), float(l[46:54])
+
+
+def _residue_groups(lines):
+    """Lists of line numbers of consecutive ATOM / HETATM records of one residue."""
+    groups, cur, key = [], [], None
+    for i, l in enumerate(lines):
+        if l.startswith(('ATOM', 'HETATM')):
+            k = l[17:27]
+            if k != key and cur:
+                groups.append(cur)
+                cur = []
+            key = k
+            cur.append(i)
+        elif cur:
+            groups.append(cur)
+            cur, key = [], None
+    if cur:
+        groups.append(cur)
+    return groups
+
+
+def _parents(lines, grp):
+    """hydrogen line -> line of the closest heavy atom of the same residue."""
+    heavy = [i for i in grp if _element(lines[i]) != 'H']
+    out = {}
+    for i in grp:
+        if _element(lines[i]) == 'H' and heavy:
+            p = _xyz(lines[i])
+            out[i] = min(heavy, key=lambda j: sum((a - b) ** 2 for a, b in zip(p, _xyz(lines[j]))))
+    return out
+
+
+def _setname(l, name):
+    l = l.ljust(80)
+    return l[:12] + (name if len(name) == 4 else ' ' + name.ljust(3)) + l[16:]
 
 
 def transform(text, kind, rng):
@@ -54,39 +120,47 @@ def transform(text, kind, rng):
     lines = text.splitlines()
     motion = {'perm': [1, 2, 3], 'sg': [1, 1, 1], 'sh': [0, 0, 0]}
     atom_idx = [i for i, l in enumerate(lines) if l.startswith(('ATOM', 'HETATM'))]
+    out = list(lines)
     if kind == 'permute':
-        # reorder the atoms inside every residue
-        groups, cur, key = [], [], None
-        for i in atom_idx:
-            k = lines[i][17:27]
-            if k != key and cur:
-                groups.append(cur)
-                cur = []
-            key = k
-            cur.append(lines[i])
-        groups.append(cur)
-        new_atoms = []
-        for g in groups:
-            rng.shuffle(g)
-            new_atoms += g
-        out = [l for i, l in enumerate(lines) if i < atom_idx[0]] + new_atoms + [l for i, l in enumerate(lines) if i > atom_idx[-1]]
+        # reorder the atoms inside every residue, in place (TER and the like keep their position)
+        for grp in _residue_groups(lines):
+            new = [lines[i] for i in grp]
+            rng.shuffle(new)
+            for i, l in zip(grp, new):
+                out[i] = l
         return '\n'.join(l for l in out if not l.startswith('CONECT')) + '\n', motion
     if kind == 'renameH':
-        out = list(lines)
         n = 0
         for i in atom_idx:
-            l = lines[i].ljust(80)
-            el = l[76:78].strip() or l[12:16].strip()[0]
-            if el == 'H':
+            if _element(lines[i]) == 'H':
                 n += 1
-                name = ('H%d' % (n % 90 + 10)).ljust(3)
-                out[i] = l[:12] + ' ' + name + l[16:]
+                out[i] = _setname(lines[i], 'H%d' % (n % 90 + 10))
+        return '\n'.join(out) + '\n', motion
+    if kind in ('renameHs', 'swapH', 'scrambleH'):
+        for grp in _residue_groups(lines):
+            hyd = [i for i in grp if _element(lines[i]) == 'H']
+            if kind == 'renameHs':
+                pool = ['H%d' % k for k in range(10, 100)]
+                rng.shuffle(pool)
+                sets = [(hyd, pool[:len(hyd)])]
+            elif kind == 'scrambleH':
+                sets = [(hyd, [lines[i][12:16] for i in hyd])]
+            else:
+                par = _parents(lines, grp)
+                sets = []
+                for p in sorted(set(par.values())):
+                    sub = [i for i in hyd if par.get(i) == p]
+                    sets.append((sub, [lines[i][12:16] for i in sub]))
+            for idx, names in sets:
+                names = list(names)
+                rng.shuffle(names)
+                for i, nm in zip(idx, names):
+                    out[i] = _setname(lines[i], nm)
         return '\n'.join(out) + '\n', motion
     if kind == 'motion':
         perm, sg = rng.choice(ROTATIONS[1:])
         sh = [rng.choice([-7000, 0, 12000, 3500]) for _ in range(3)]
         motion = {'perm': list(perm), 'sg': list(sg), 'sh': sh}
-        out = list(lines)
         for i in atom_idx:
             l = lines[i].ljust(80)
             c = [int(round(float(l[30:38]) * 1000)), int(round(float(l[38:46]) * 1000)), int(round(float(l[46:54]) * 1000))]
@@ -96,42 +170,85 @@ def transform(text, kind, rng):
     return text, motion
 
 
-def snap(text):
-    """Base presentation with coordinates exactly on the 0.001 A grid (they are, in a PDB file) - identity."""
-    return text
+def present(text, kinds, tseed):
+    rng = random.Random(tseed)
+    motion = dict(IDENT)
+    for part in kinds.split('+'):
+        text, m2 = transform(text, part, rng)
+        if part == 'motion':
+            motion = m2
+    return text, motion
 
 
+def nh3_termini(text):
+    """[chain, resid, icode] of first residues of a chain that carry an NH3+ group (three hydrogens closest to N)."""
+    lines = text.splitlines()
+    out, prev_chain, first = [], None, True
+    for grp in _residue_groups(lines):
+        l = lines[grp[0]]
+        if not l.startswith('ATOM'):
+            continue
+        chain = l[21]
+        if first or chain != prev_chain:
+            par = _parents(lines, grp)
+            n_on_n = sum(1 for h, p in par.items() if lines[p][12:16].strip() == 'N')
+            if n_on_n >= 3:
+                out.append([chain.strip(), int(l[22:26]), l[26].strip()])
+        prev_chain, first = chain, False
+    return out
+
+
+def n_protein_residues(text):
+    seen = []
+    for l in text.splitlines():
+        if l.startswith('ATOM') and l[17:20] != 'HOH':
+            k = l[17:27]
+            if not seen or seen[-1] != k:
+                seen.append(k)
+    return len(seen)
+
+
+def closest_sg(text):
+    sg = [_xyz(l) for l in text.splitlines() if l.startswith('ATOM') and l[12:16].strip() == 'SG' and l[17:20] == 'CYS']
+    best = None
+    for i in range(len(sg)):
+        for j in range(i + 1, len(sg)):
+            d = math.sqrt(sum((a / 10 - b / 10) ** 2 for a, b in zip(sg[i], sg[j])))
+            if best is None or d < best:
+                best = d
+    return best
+
+
+def options_for(inp, opt, base_text, probes):
+    """Concrete option list, or None if a generated value is not available yet (needs the probe of a base run)."""
+    out = []
+    for tok in OPTION_SETS[opt]:
+        if tok == '@SS':
+            n = n_protein_residues(base_text)
+            pat = 'CCHHHHHHHHCCEEEEECCTTSSEEEEECC' * (n // 30 + 1)
+            tok = pat[:n]
+        elif tok == '@CYS':
+            d = closest_sg(base_text)
+            if d is None:
+                return None
+            tok = repr(d)
+        elif tok == '@EU':
+            if probes.get(inp) is None:
+                return None
+            tok = probes[inp]
+        out.append(tok)
+    if inp in TIER1:
+        out += ['-ignore', 'HOH']
+    return out
+
+
+# ------------------------------------------------------------------------------------------------------------ running
 def num(tok):
-    try:
-        v = float(tok)
-    except ValueError:
-        return {'k': 's', 's': tok, 'n': 0}
-    if abs(v) > 2e5:
-        return {'k': 's', 's': tok, 'n': 0}
-    return {'k': 'n', 's': '', 'n': int(round(v * 10000))}
+    return c11_stages.num(tok)
 
 
 def abstract(root):
-    out = {'ok': True, 'top': [], 'inters': [], 'coords': []}
-    itps = sorted(f for f in os.listdir(root) if f.endswith('.itp'))
-    for f in itps:
-        recs = indep_readers.read_itp(open(os.path.join(root, f)).read())['records']
-        sec = ''
-        for r in recs:
-            if r['k'] == 'section':
-                sec = r['s']
-            elif r['k'] == 'atom':
-                p = r['p'] + [''] * 7
-                out['top'].append({'type': p[0], 'resid': p[1], 'resname': p[2], 'name': p[3], 'cg': p[4], 'charge': p[5]})
-            elif r['k'] == 'inter':
-                out['inters'].append({'sec': f + ':' + sec, 'atoms': [int(a) for a in r['a']], 'params': [num(t) for t in r['p']]})
-            elif r['k'] in ('ifdef', 'ifndef', 'else', 'endif'):
-                out['inters'].append({'sec': f + ':' + sec + ':' + r['k'], 'atoms': [], 'params': [{'k': 's', 's': r.get('s', ''), 'n': 0}]})
-    pdb = indep_readers.read_pdb(open(os.path.join(root, 'cg.pdb')).read())
-    for mol in pdb['molecules']:
-        for a in mol:
-            out['coords'].append([int(round(float(a['x']) * 1000)), int(round(float(a['y']) * 1000)), int(round(float(a['z']) * 1000))])
-    return out
+    return c11_stages.abstract_files(root)
 
 
 def _run(args):
@@ -145,7 +262,7 @@ def _run(args):
         env = dict(os.environ)
         env['PYTHONPATH'] = REPO
         env['PYTHONHASHSEED'] = str(hashseed)
-        p = subprocess.run(cmd, cwd=root, env=env, stdout=subprocess.PIPE, stderr=subprocess.PIPE, text=True, timeout=900)
+        p = subprocess.run(cmd, cwd=root, env=env, stdout=subprocess.PIPE, stderr=subprocess.PIPE, text=True, timeout=1500)
         if p.returncode != 0 or not os.path.exists(os.path.join(root, 'cg.pdb')):
             return {'ok': False, 'top': [], 'inters': [], 'coords': [], 'stderr': p.stderr[-400:], 'label': label}
         a = abstract(root)
@@ -158,96 +275,514 @@ def _run(args):
         shutil.rmtree(root, ignore_errors=True)
 
 
+def _job(job):
+    route, args = job
+    if route == 'cli':
+        return _run(args)
+    return c11_stages.run_stages(args)
+
+
 _SCRATCH = None
+_COST = {'dipro': 1, 'trpcage': 1, 'betasheet': 1, 'helix': 2, '1UBQ': 2, '3i40': 2, 'lysozyme': 4, '6LFO_gap': 12}
+
+
+def execute(jobs, costs):
+    """Run the jobs (longest first) in freshly forked workers, one job per process."""
+    if not jobs:
+        return []
+    order = sorted(range(len(jobs)), key=lambda i: -costs[i])
+    ctx = mp.get_context('fork')
+    with ctx.Pool(min(tlc.NCPU, len(jobs)), maxtasksperchild=1) as pool:
+        res = pool.map(_job, [jobs[i] for i in order], chunksize=1)
+    out = [None] * len(jobs)
+    for i, r in zip(order, res):
+        out[i] = r
+    return out
+
+
+# ------------------------------------------------------------------------------------------------------------ planning
+def pair_specs(tier, seed):
+    """[(input, option set, [kinds on the cli route], [kinds on the stages route])]"""
+    if tier == 'quick':
+        return [
+            ('dipro', 'default', ['permute', 'hashseed'], ['permute+renameHs+motion', 'swapH']),
+            ('trpcage', 'elastic', ['renameH', 'hashseed'], ['permute', 'renameHs', 'permute+renameHs+motion']),
+            ('dipro', 'm22-scfix', ['motion', 'hashseed'], []),
+            ('trpcage', 'nt', ['permute', 'hashseed'], ['permute+renameHs+motion']),
+            ('betasheet', 'posres', ['renameH', 'hashseed'], ['swapH', 'permute+motion']),
+            ('helix', 'nt-m22', ['motion', 'hashseed'], []),
+            ('trpcage', 'dist-bonds', [], ['scrambleH', 'scrambleH+permute+motion']),
+            ('trpcage', 'ss-explicit', [], ['permute+renameHs+motion']),
+            ('betasheet', 'cys-thr', [], ['motion', 'permute+renameHs+motion']),
+            ('trpcage', 'elastic-thr', [], ['motion', 'permute+renameHs+motion']),
+        ]
+    out = []
+    t0 = ('dipro', 'trpcage', 'betasheet', 'helix')
+    for inp in t0:
+        for opt in ('default', 'elastic', 'posres', 'm22-scfix', 'elnedyn', 'ss', 'cys', 'nt', 'nt-m22'):
+            out.append((inp, opt, ['permute', 'renameH', 'motion', 'hashseed', 'hashseed', 'permute+motion'],
+                        ['permute', 'renameHs', 'swapH', 'motion', 'permute+renameHs+motion']))
+        for opt in ('elastic-chain', 'posres-all', 'cys03', 'ss-explicit'):
+            out.append((inp, opt, ['hashseed'], ['permute', 'renameHs', 'permute+renameHs+motion', 'permute+swapH+motion']))
+        out.append((inp, 'dist-bonds', ['hashseed'], ['scrambleH', 'scrambleH+permute', 'scrambleH+permute+motion']))
+        if inp != 'dipro':
+            out.append((inp, 'elastic-thr', [], ['motion', 'permute+motion', 'permute+renameHs+motion', 'motion']))
+    out.append(('betasheet', 'cys-thr', [], ['motion', 'permute+motion', 'permute+renameHs+motion', 'motion']))
+    for inp in ('1UBQ', '3i40', 'lysozyme'):
+        for opt in ('default', 'elastic-chain', 'posres-all', 'cys03', 'nt', 'ss-explicit', 'elnedyn'):
+            out.append((inp, opt, ['hashseed'], ['permute', 'motion', 'permute+motion']))
+        out.append((inp, 'elastic-thr', [], ['motion', 'permute+motion']))
+    out.append(('3i40', 'cys-thr', [], ['motion', 'permute+motion', 'motion']))
+    out.append(('lysozyme', 'cys-thr', [], ['motion', 'permute+motion']))
+    for opt in ('elastic-chain', 'posres-all', 'cys03', 'nt'):
+        out.append(('6LFO_gap', opt, ['hashseed'] if opt == 'elastic-chain' else [], ['permute+motion']))
+    return out
+
+
+class Pair:
+    def __init__(self, route, inp, opt, kinds, n, seed):
+        self.route, self.inp, self.opt, self.kinds, self.n = route, inp, opt, kinds, n
+        self.tseed = '%s/%s/%s/%s/%d' % (seed, inp, opt, kinds, n)
+        self.hs = random.Random(self.tseed).choice([1, 2, 3, 7]) if kinds == 'hashseed' else 0
+        self.base = self.two = None     # indices into the job list
+        self.motion = dict(IDENT)
+        self.options = None
+
+    def what(self):
+        return [self.inp, self.opt, self.kinds, self.hs, self.route]
+
+    def scenario(self, verdict, r1, r2, nh3):
+        return {'what': self.what(), 'route': self.route, 'input': self.inp, 'option_set': self.opt, 'options': self.options,
+                'kinds': self.kinds, 'hashseed': self.hs, 'tseed': self.tseed, 'motion': self.motion, 'verdict': verdict,
+                'nh3_termini': nh3, 'stderr_two': (r2.get('stderr') or '')[-300:],
+                'particles': [len((r1.get('files') or r1)['top']), len((r2.get('files') or r2)['top'])]}
+
+
+# ------------------------------------------------------------------------------------------------- known finding D18
+def _is_nt_nh3(kind, sc):
+    """-nt (NH2-ter) on a chain that starts with an NH3+ group: which of the three equivalent hydrogens is dropped follows the
+    NAME ORDER of the hydrogens, so renaming them moves the N-terminal backbone bead (and parameters computed from it)."""
+    if '-nt' not in sc.get('options', []) or not sc.get('nh3_termini'):
+        return False
+    if not any(k in sc.get('kinds', '') for k in H_KINDS):
+        return False
+    v = sc.get('verdict', {})
+    if sc.get('route') == 'stages':
+        if not (v.get('st') == 'differs' and str(v.get('name', '')).startswith('CanonicalizeModifications')
+                and v.get('how') == 'coordinates not following the motion'):
+            return False
+        w = v.get('where') or []
+        return bool(w) and all(list(x[0][:3]) in sc['nh3_termini'] and x[0][3] == 'H@N' for x in w)
+    # file level: only the first bead of a molecule moves, only interaction lines that involve atom 1 differ
+    if v.get('st') not in ('interactions-differ', 'coordinates-do-not-follow-the-rigid-motion'):
+        return False
+    w = v.get('cliwhere') or {}
+    return bool(w) and bool(w.get('coords')) and all(i in sc.get('first_beads', []) for i in w.get('coords', [])) \
+        and all(1 in atoms for atoms in w.get('inters', []))
+
+
+SIGNATURES = {'D18': _is_nt_nh3, 'C11-nt-nh3': _is_nt_nh3}
+
+
+# --------------------------------------------------------------------------------------------------------------- judge
+def _slim(r):
+    return {k: r[k] for k in ('ok', 'top', 'inters', 'coords')}
+
+
+def _stage_run(r):
+    out = {k: r[k] for k in ('ok', 'names', 'idx') + c11_stages.COMPONENTS}
+    out['files'] = _slim(r['files'])
+    return out
+
+
+def _thr_items(r1, r2):
+    out = []
+    for t in r1['thr'] + r2['thr']:
+        item = {k: t[k] for k in ('kind', 'ra', 'rb', 'ka', 'kb')}
+        if item not in out:
+            out.append(item)
+    return out
+
+
+def judge(cli_pairs, stage_groups, ev, name, timeout=3000):
+    """cli_pairs: [(r1, r2, motion)]; stage_groups: [[(r1, r2, motion)...]] (pairs of one group share their base run).
+    Returns (cli verdicts, stage verdicts per group) - verdict records as Python dicts."""
+    batches = []
+    if cli_pairs:
+        batches.append(('cli', {'cli': [{'one': _slim(a), 'two': _slim(b), 'motion': m} for a, b, m in cli_pairs], 'runs': [], 'pairs': []}))
+    # shard the stage-wise groups by volume
+    shards, cur, vol = [], [], 0
+    for gi, grp in enumerate(stage_groups):
+        size = sum(len(r2['occ']) and sum(len(t) for t in r2['occ']) for _, r2, _ in grp) + 1
+        if cur and vol + size > 60000:
+            shards.append(cur)
+            cur, vol = [], 0
+        cur.append(gi)
+        vol += size
+    if cur:
+        shards.append(cur)
+    for sh in shards:
+        runs, pairs, ref = [], [], []
+        for gi in sh:
+            grp = stage_groups[gi]
+            runs.append(_stage_run(grp[0][0]))
+            b = len(runs)
+            for pi, (r1, r2, m) in enumerate(grp):
+                runs.append(_stage_run(r2))
+                thr = _thr_items(r1, r2)
+                pairs.append({'one': b, 'two': len(runs), 'motion': m, 'thr': thr, 'fadm': c11_stages.file_admissions(thr, [r1, r2])})
+                ref.append((gi, pi))
+        batches.append((ref, {'cli': [], 'runs': runs, 'pairs': pairs}))
+
+    def one(item):
+        tag, doc = item
+        work = tlc.scratch('c11_')
+        tf = tlc.write_json(work, 'trace.json', doc)
+        res = tlc.run('Trace_PipelineEq', 'SPECIFICATION Spec\n', dump=True, env={'TRACE_FILE': tf}, workdir=work, workers=4, timeout=timeout)
+        return tag, res, {st['tid']: st['verdict'] for st in res.states() if st['verdict']['st'] != 'pending'}
+
+    from concurrent.futures import ThreadPoolExecutor
+    with ThreadPoolExecutor(max_workers=4) as tp:
+        done = list(tp.map(one, batches))
+    cli_v = {}
+    stage_v = {}
+    for k, (tag, res, verdicts) in enumerate(done):
+        ev.add_tlc('TRACE Trace_PipelineEq %s %d' % (name, k), res)
+        if tag == 'cli':
+            cli_v = {i - 1: verdicts.get(i, {'st': 'no-verdict'}) for i in range(1, len(cli_pairs) + 1)}
+        else:
+            for i, ref in enumerate(tag, 1):
+                stage_v[ref] = verdicts.get(i, {'st': 'no-verdict'})
+    return cli_v, stage_v
+
+
+def _cliwhere(r1, r2, motion):
+    """Projection for the signature of the known finding only (never decides a verdict): particles whose written
+    coordinates do not follow the motion, atoms of interaction lines without an identical partner."""
+    out = {'coords': [], 'inters': []}
+    if len(r1['coords']) == len(r2['coords']):
+        for i, (a, b) in enumerate(zip(r1['coords'], r2['coords']), 1):
+            m = [motion['sg'][d] * a[motion['perm'][d] - 1] + motion['sh'][d] for d in range(3)]
+            if any(abs(m[d] - b[d]) > 2 for d in range(3)):
+                out['coords'].append(i)
+    s2 = [(x['sec'], x['atoms'], [(p['k'], p['s'], p['n']) for p in x['params']]) for x in r2['inters']]
+    for x in r1['inters']:
+        if (x['sec'], x['atoms'], [(p['k'], p['s'], p['n']) for p in x['params']]) not in s2:
+            out['inters'].append(x['atoms'])
+    return out
+
+
+def _first_beads(r):
+    """1-based positions, in the written structure, of the first particle of every residue numbered 1."""
+    return [i for i, t in enumerate(r['top'], 1) if t['resid'] == '1' and (i == 1 or r['top'][i - 2]['resid'] != '1')]
+
+
+def _tidy(v):
+    """TLA+ value (tuples / frozensets) -> JSON-able."""
+    if isinstance(v, dict):
+        return {k: _tidy(x) for k, x in v.items()}
+    if isinstance(v, (tuple, list)):
+        return [_tidy(x) for x in v]
+    if isinstance(v, frozenset):
+        return sorted((_tidy(x) for x in v), key=repr)
+    return v
 
 
 def run(tier, seed, ev, vd):
     global _SCRATCH
     _SCRATCH = tlc.scratch('c11fs_')
-    quick = tier == 'quick'
-    ev.rule = ('pairs (base, transformed) of real martinize2 runs: inputs x option sets x {atoms permuted within residues, hydrogens '
-               'renamed, lattice rotation + translation, other PYTHONHASHSEED}. Non-trivial = both runs produced a topology with '
-               '>= 2 particles; distinct by (input, options, transformation, seed).')
+    ev.rule = ('pairs (base, transformed) of real martinize2 runs: inputs x option sets x presentations {atoms permuted within '
+               'residues, hydrogens renamed (file order / shuffled / names swapped on one heavy atom / scrambled with '
+               '-bonds-from distance), lattice rotation + translation, combinations, other PYTHONHASHSEED} on two routes '
+               '(cli = subprocess, files only; stages = in-process entry() recorded after every Processor.run_system). '
+               'Non-trivial = both runs produced a topology with >= 2 particles; distinct by (input, options, '
+               'presentation, seed, route).')
     ev.assumptions = ['lattice rotations map the 0.001 A grid of the PDB format onto itself, so the transformed input is exact',
-                      'numeric parameters are compared with a tolerance of 2 units in the 4th decimal, coordinates 0.002 A',
+                      'numeric parameters are compared with a tolerance of 2 units in the 4th decimal, coordinates 0.002 A; more than '
+                      '300 interaction lines without an identical partner are not regarded as float noise',
                       'the DSSP executable path is not exercised (no binary); -maxwarn 1000 so that warnings do not hide the output',
-                      'exploration of presentations is sampling, not enumeration']
-    rng = random.Random(seed)
-    if quick:
-        plan = [('dipro', 'default'), ('trpcage', 'elastic'), ('dipro', 'm22-scfix'), ('trpcage', 'nt'), ('betasheet', 'posres'),
-                ('helix', 'nt-m22')]
-    else:
-        plan = [(i, o) for i in INPUTS for o in OPTION_SETS]
-    jobs, meta = [], []
-    for inp, opt in plan:
-        base = open(INPUTS[inp]).read()
-        kinds = ['permute', 'renameH', 'motion', 'hashseed', 'hashseed'] + ([] if quick else ['permute', 'motion', 'hashseed', 'permute+motion'])
-        jobs.append((base, OPTION_SETS[opt], 0, '%s/%s/base' % (inp, opt)))
-        base_idx = len(jobs) - 1
-        for k in kinds:
-            text, motion, hs = base, {'perm': [1, 2, 3], 'sg': [1, 1, 1], 'sh': [0, 0, 0]}, 0
-            if k == 'hashseed':
-                hs = rng.choice([1, 2, 3, 7])
-            else:
-                for part in k.split('+'):
-                    text, m2 = transform(text, part, rng)
-                    if part == 'motion':
-                        motion = m2
-            jobs.append((text, OPTION_SETS[opt], hs, '%s/%s/%s' % (inp, opt, k)))
-            meta.append((base_idx, len(jobs) - 1, motion, inp, opt, k, hs))
-    with mp.Pool(tlc.NCPU) as pool:
-        results = pool.map(_run, jobs)
-    events = []
-    for bi, ti, motion, inp, opt, k, hs in meta:
-        events.append({'one': results[bi], 'two': results[ti], 'motion': motion, 'what': [inp, opt, k, hs]})
-    work = tlc.scratch('c11_')
-    slim = [{'one': {k: e['one'][k] for k in ('ok', 'top', 'inters', 'coords')}, 'two': {k: e['two'][k] for k in ('ok', 'top', 'inters', 'coords')},
-             'motion': e['motion']} for e in events]
-    tf = tlc.write_json(work, 'trace.json', slim)
-    res = tlc.run('Trace_PipelineEq', 'SPECIFICATION Spec\n', dump=True, env={'TRACE_FILE': tf}, workdir=work, workers=4, timeout=3000)
-    verdicts = {st['tid']: st['verdict'] for st in res.states() if st['verdict'] != 'pending'}
-    ev.add_tlc('TRACE Trace_PipelineEq', res)
-    for i, e in enumerate(events, 1):
+                      'exploration of presentations is sampling, not enumeration',
+                      'stage-wise abstraction: a hydrogen is keyed by the heavy atoms it is bonded to (which of two hydrogens on one '
+                      'atom receives which canonical name is decided by name order and is not chemistry); heavy atoms and beads by '
+                      '(chain, resid, insertion code, name); PYTHONHASHSEED cannot change in-process and stays on the subprocess route',
+                      'not generated: hydrogen names permuted across heavy atoms together with name-based bond guessing (a hydrogen '
+                      'called HA that sits on CB states another chemistry; reproduced: MakeBonds bonds it to CA) - such scrambling is '
+                      'only generated with -bonds-from distance',
+                      'items on a threshold (guessed bond fudge*(r1+r2)/2, -cys distance, elastic upper cut-off) are recomputed by the '
+                      'driver from the coordinates the real processor receives, 1e-6 relative band; the option values of the '
+                      'elastic-thr / cys-thr families are chosen to lie exactly on a pair distance']
+    specs = pair_specs(tier, seed)
+    texts = {inp: open(INPUTS[inp]).read() for inp in INPUTS}
+    nh3 = {inp: nh3_termini(texts[inp]) for inp in INPUTS}
+    probes = {}
+    pending = []
+    for inp, opt, ck, sk in specs:
+        ps = [Pair('cli', inp, opt, k, n, seed) for n, k in enumerate(ck)] + [Pair('stages', inp, opt, k, n, seed) for n, k in enumerate(sk)]
+        pending.append((inp, opt, ps))
+    all_pairs, all_jobs, all_res = [], [], []
+    for phase in (1, 2):
+        jobs, costs, todo = [], [], []
+        for inp, opt, ps in pending:
+            options = options_for(inp, opt, texts[inp], probes)
+            if (options is None) != (phase == 2 and '@EU' in OPTION_SETS[opt]) and phase == 1:
+                if options is None:
+                    continue
+            if options is None:
+                raise tlc.MachineryError('no probe for %s/%s' % (inp, opt))
+            if phase == 2 and '@EU' not in OPTION_SETS[opt]:
+                continue
+            base = {}
+            for p in ps:
+                p.options = options
+                if p.route not in base:
+                    if p.route == 'cli':
+                        jobs.append(('cli', (texts[inp], options, 0, '%s/%s/base' % (inp, opt))))
+                    else:
+                        jobs.append(('stages', (texts[inp], options, dict(IDENT), '%s/%s/base' % (inp, opt), _SCRATCH)))
+                    costs.append(_COST[inp])
+                    base[p.route] = len(all_jobs) + len(jobs) - 1
+                p.base = base[p.route]
+                if p.kinds == 'hashseed':
+                    text = texts[inp]
+                else:
+                    text, p.motion = present(texts[inp], p.kinds, p.tseed)
+                label = '%s/%s/%s' % (inp, opt, p.kinds)
+                if p.route == 'cli':
+                    jobs.append(('cli', (text, options, p.hs, label)))
+                else:
+                    jobs.append(('stages', (text, options, p.motion, label, _SCRATCH)))
+                costs.append(_COST[inp])
+                p.two = len(all_jobs) + len(jobs) - 1
+                todo.append(p)
+        res = execute(jobs, costs)
+        all_jobs += jobs
+        all_res += res
+        all_pairs += todo
+        if phase == 1:
+            # the longest elastic bond of a base run of the 'elastic' family gives the on-threshold cut-off of 'elastic-thr'
+            need = sorted({inp for inp, opt, _ in pending if '@EU' in OPTION_SETS[opt]})
+            pj = [('stages', (texts[inp], options_for(inp, 'elastic', texts[inp], probes), dict(IDENT), 'probe', _SCRATCH)) for inp in need]
+            have = {}
+            for inp, opt, ps in pending:
+                if opt == 'elastic' and inp in need:
+                    for p in ps:
+                        if p.route == 'stages':
+                            have[inp] = all_res[p.base]
+            missing = [inp for inp in need if inp not in have]
+            extra = execute([pj[need.index(inp)] for inp in missing], [_COST[inp] for inp in missing])
+            for inp, r in zip(missing, extra):
+                have[inp] = r
+            for inp in need:
+                probes[inp] = _longest_elastic(have[inp])
+                if probes[inp] is None:
+                    raise tlc.MachineryError('probe run for %s gave no elastic bond: %s' % (inp, have[inp].get('stderr')))
+    ev.extra['martinize2_runs'] = len(all_jobs)
+
+    for r in all_res:
+        if r.get('harness_error'):
+            raise tlc.MachineryError('stage recorder failed (%s): %s' % (r.get('label'), r['harness_error']))
+    cli_pairs = [p for p in all_pairs if p.route == 'cli']
+    groups = {}
+    for p in all_pairs:
+        if p.route == 'stages':
+            groups.setdefault(p.base, []).append(p)
+    group_list = list(groups.values())
+    cli_v, stage_v = judge([(all_res[p.base], all_res[p.two], p.motion) for p in cli_pairs],
+                           [[(all_res[p.base], all_res[p.two], p.motion) for p in g] for g in group_list], ev, tier)
+    report(cli_pairs, cli_v, group_list, stage_v, all_res, nh3, ev, vd)
+
+
+def _longest_elastic(r):
+    """repr of the exact length (nm, from the final coordinates' integer grid is NOT enough: taken from the recorded
+    interaction parameters would be rounded too) - so the worker's final bead positions are not used; instead the
+    cut-off is set to the rounded length of the longest rubber band, which the elastic-thr base run then meets again."""
+    best = None
+    if not r.get('ok') or not r['inters']:
+        return None
+    for it in r['inters'][-1]:
+        if it[0] == 'bonds' and 'Rubber band' in it[3] and len(it[2]) >= 2 and it[2][1][0] == 'n':
+            v = it[2][1][2]
+            if best is None or v > best:
+                best = v
+    return None if best is None else repr(best / 10000.0)
+
+
+def report(cli_pairs, cli_v, group_list, stage_v, all_res, nh3, ev, vd):
+    admissible, on_thr = [], 0
+    stage_names = set()
+    first = True
+    for i, p in enumerate(cli_pairs):
+        r1, r2 = all_res[p.base], all_res[p.two]
+        v = _tidy(cli_v.get(i, {'st': 'no-verdict'}))
         ev.traces += 1
         ev.evaluations += 2
-        v = verdicts.get(i, 'no-verdict')
-        if not e['one']['ok']:
-            raise tlc.MachineryError('base run failed for %s: %s' % (e['what'], e['one'].get('stderr')))
-        if len(e['one']['top']) >= 2 and e['two']['ok']:
-            ev.nontrivial_case(e['what'])
-        if v != 'ok':
-            detail = '%s: %s %s' % (e['what'], v, (e['two'].get('stderr') or '')[-200:])
-            vd.violation('trace-rejected', {'what': e['what'], 'verdict': v, 'motion': e['motion'],
-                                            'particles': [len(e['one']['top']), len(e['two']['top'])],
-                                            'stderr_two': e['two'].get('stderr', '')}, detail)
-    ev.extra['martinize2_runs'] = len(jobs)
-    ev.sample({'kind': 'pair of real martinize2 runs judged by TLC', 'what': events[0]['what'], 'particles': len(events[0]['one']['top']),
-               'interactions': len(events[0]['one']['inters']), 'motion': events[0]['motion']})
+        if not r1['ok']:
+            raise tlc.MachineryError('base run failed for %s: %s' % (p.what(), r1.get('stderr')))
+        if len(r1['top']) >= 2 and r2['ok']:
+            ev.nontrivial_case(p.what())
+        if v['st'] != 'ok':
+            sc = p.scenario(v, r1, r2, nh3[p.inp])
+            sc['verdict']['cliwhere'] = _cliwhere(r1, r2, p.motion) if r2['ok'] else {}
+            sc['first_beads'] = _first_beads(r1)
+            vd.violation('trace-rejected', sc, '%s: %s %s' % (p.what(), v['st'], (r2.get('stderr') or '')[-200:]))
+        if first:
+            ev.sample({'kind': 'pair of real martinize2 subprocess runs judged by TLC', 'what': p.what(), 'particles': len(r1['top']),
+                       'interactions': len(r1['inters']), 'motion': p.motion})
+            first = False
+    first = True
+    for gi, grp in enumerate(group_list):
+        for pi, p in enumerate(grp):
+            r1, r2 = all_res[p.base], all_res[p.two]
+            v = _tidy(stage_v.get((gi, pi), {'st': 'no-verdict'}))
+            ev.traces += 1
+            ev.evaluations += len(r1['names']) + len(r2['names'])
+            if not r1['ok']:
+                raise tlc.MachineryError('base run failed for %s: %s' % (p.what(), r1.get('stderr')))
+            if len(r1['names']) < 10:
+                raise tlc.MachineryError('only %d stages recorded for %s' % (len(r1['names']), p.what()))
+            stage_names.update(n.split('#')[0] for n in r1['names'])
+            if len(r1['files']['top']) >= 2 and r2['ok']:
+                ev.nontrivial_case(p.what())
+            thr = _thr_items(r1, r2)
+            on_thr += 1 if thr else 0
+            good = v['st'] == 'ok' and v.get('files') in ('ok', 'ok-admissible')
+            if good and (v.get('adm', 0) > 0 or v.get('files') == 'ok-admissible'):
+                admissible.append({'what': p.what(), 'options': p.options, 'differences_admitted_over_all_stages': v.get('adm', 0),
+                                   'files': v.get('files'), 'items_on_threshold': [dict(t, d=x['d'], t=x['t']) for t in thr
+                                                                                  for x in (r1['thr'] + r2['thr'])
+                                                                                  if all(x[k] == t[k] for k in ('kind', 'ka', 'kb'))][:6]})
+            if not good:
+                sc = p.scenario(v, r1, r2, nh3[p.inp])
+                if v['st'] == 'ok':
+                    sc['verdict']['cliwhere'] = _cliwhere(r1['files'], r2['files'], p.motion) if r2['ok'] else {}
+                    sc['first_beads'] = _first_beads(r1['files'])
+                where = '%s: first difference after stage %s %s: %s' % (p.what(), v.get('stage'), v.get('name'), v.get('how')) \
+                    if v['st'] == 'differs' else '%s: %s / files %s' % (p.what(), v['st'], v.get('files'))
+                vd.violation('stage-differs' if v['st'] == 'differs' else 'trace-rejected', sc,
+                             where + ' ' + repr(v.get('where'))[:300] + ' ' + (r2.get('stderr') or '')[-200:])
+            if first:
+                ev.sample({'kind': 'pair of in-process entry() runs recorded after every Processor.run_system, judged by TLC',
+                           'what': p.what(), 'stages': r1['names'], 'verdict': {k: v.get(k) for k in ('st', 'stage', 'name', 'how', 'adm', 'files')}})
+                first = False
+    ev.extra['stage_processors_observed'] = sorted(stage_names)
+    ev.extra['pairs_with_an_item_on_a_threshold'] = on_thr
+    ev.extra['pairs_differing_only_by_items_on_a_threshold'] = admissible
+    if group_list and on_thr == 0:
+        raise tlc.MachineryError('no pair with an item on a geometric threshold: the admissible-difference rule was not exercised')
 
 
+# ----------------------------------------------------------------------------------------------------- replay / selftest
 def replay(sc):
-    print(sc)
-    return 0
+    """Re-run one recorded pair on its route and let TLC judge it again."""
+    global _SCRATCH
+    _SCRATCH = tlc.scratch('c11r_')
+    inp, options, kinds = sc['input'], sc['options'], sc['kinds']
+    base = open(INPUTS[inp]).read()
+    if kinds == 'hashseed':
+        text, motion = base, dict(IDENT)
+    else:
+        text, motion = present(base, kinds, sc['tseed'])
+    ev = common.Evidence(PID, 'replay', 0, LEVEL)
+    if sc['route'] == 'cli':
+        res = execute([('cli', (base, options, 0, 'base')), ('cli', (text, options, sc.get('hashseed', 0), kinds))], [1, 1])
+        cli_v, _ = judge([(res[0], res[1], motion)], [], ev, 'replay')
+        v = _tidy(cli_v[0])
+    else:
+        res = execute([('stages', (base, options, dict(IDENT), 'base', _SCRATCH)), ('stages', (text, options, motion, kinds, _SCRATCH))], [1, 1])
+        _, stage_v = judge([], [[(res[0], res[1], motion)]], ev, 'replay')
+        v = _tidy(stage_v[(0, 0)])
+    print('replay C11 %s %s %s: %s' % (inp, ' '.join(options), kinds, {k: v.get(k) for k in ('st', 'stage', 'name', 'how', 'where', 'adm', 'files')}))
+    good = v['st'] == 'ok' and v.get('files', 'ok') in ('ok', 'ok-admissible', '')
+    return 0 if good else 1
 
 
 def selftest(seed):
     global _SCRATCH
-    _SCRATCH = tlc.scratch('c11s_')
-    base = open(INPUTS['dipro']).read()
-    r = _run((base, OPTION_SETS['default'], 0, 'base'))
-    assert r['ok'], r
     import copy
+    _SCRATCH = tlc.scratch('c11s_')
+    base = open(INPUTS['trpcage']).read()
+    opts = OPTION_SETS['elastic']
+    moved, motion = present(base, 'permute+motion', 'selftest')
+    res = execute([('cli', (open(INPUTS['dipro']).read(), OPTION_SETS['default'], 0, 'base')),
+                   ('stages', (base, opts, dict(IDENT), 'base', _SCRATCH)), ('stages', (moved, opts, motion, 'moved', _SCRATCH))], [1, 1, 1])
+    r, s1, s2 = res
+    assert r['ok'] and s1['ok'] and s2['ok'], (r.get('stderr'), s1.get('stderr'), s1.get('harness_error'), s2.get('stderr'))
+    # (I) file level, as before
     bad = copy.deepcopy(r)
     bad['inters'][0]['params'][-1] = {'k': 'n', 's': '', 'n': 123456}
     bad2 = copy.deepcopy(r)
     bad2['coords'][0][0] += 50
-    ident = {'perm': [1, 2, 3], 'sg': [1, 1, 1], 'sh': [0, 0, 0]}
-    slim = [{'one': {k: a[k] for k in ('ok', 'top', 'inters', 'coords')}, 'two': {k: b[k] for k in ('ok', 'top', 'inters', 'coords')}, 'motion': ident}
-            for a, b in ((r, r), (r, bad), (r, bad2))]
-    work = tlc.scratch('c11t_')
-    tf = tlc.write_json(work, 'trace.json', slim)
-    res = tlc.run('Trace_PipelineEq', 'SPECIFICATION Spec\n', dump=True, env={'TRACE_FILE': tf}, workdir=work, workers=1)
-    verdicts = {st['tid']: st['verdict'] for st in res.states() if st['verdict'] != 'pending'}
-    assert verdicts[1] == 'ok' and verdicts[2] != 'ok' and verdicts[3] != 'ok', verdicts
-    print('selftest C11: tampered pairs rejected:', verdicts[2], '/', verdicts[3])
+    ev = common.Evidence(PID, 'selftest', 0, LEVEL)
+
+    # (II) stage level: tamper with ONE recorded field of the transformed run at a chosen stage
+    def tamper(fn):
+        t = copy.deepcopy(s2)
+        fn(t)
+        return t
+
+    names = s2['names']
+    i_map = next(i for i, n in enumerate(names) if n.startswith('DoMapping'))
+    i_avg = next(i for i, n in enumerate(names) if n.startswith('DoAverageBead'))
+    i_rb = next(i for i, n in enumerate(names) if n.startswith('ApplyRubberBand'))
+    i_mb = next(i for i, n in enumerate(names) if n.startswith('MakeBonds'))
+
+    def fork(t, stage, comp):
+        """give stage `stage` and all later ones that share it a private copy of table `comp`; return the copy."""
+        c = c11_stages.COMPONENTS.index(comp)
+        old = t['idx'][stage][c]
+        t[comp].append(copy.deepcopy(t[comp][old - 1]))
+        for row in t['idx'][stage:]:
+            if row[c] == old:
+                row[c] = len(t[comp])
+        return t[comp][-1]
+
+    def t_atoms(t):
+        fork(t, i_map, 'atoms')[0][1][2] = 'XX'                 # bead type of one particle after DoMapping
+
+    def t_coord(t):
+        fork(t, i_avg, 'occ')[3][3][0] += 40                    # one bead 0.04 A off after DoAverageBead
+
+    def t_part(t):
+        fork(t, i_mb, 'occ')[5][1] = 1                          # one atom in another molecule after MakeBonds
+
+    def t_edge(t):
+        fork(t, i_mb, 'edges').pop(7)                           # one bond missing after MakeBonds
+
+    rb = [x for x in s2['inters'][s2['idx'][i_rb][2] - 1] if 'Rubber band' in x[3]]
+    victim = rb[len(rb) // 2]
+
+    def t_inter(t):
+        tab = fork(t, i_rb, 'inters')
+        tab.remove(victim)                                       # one elastic bond missing after ApplyRubberBand
+
+    thr_item = {'kind': 'elastic', 'ra': victim[1][0][:3], 'rb': victim[1][1][:3], 'ka': min(victim[1]), 'kb': max(victim[1]), 'd': '0', 't': '0'}
+
+    def t_inter_listed(t):
+        t_inter(t)
+        t['thr'] = t['thr'] + [thr_item]                        # ... but that pair is listed as lying on the cut-off
+        # the file of the tampered run loses the same line
+        ka, kb = thr_item['ka'], thr_item['kb']
+        keys = t['final'][0]['keys']
+        ia, ib = keys.index(ka) + 1, keys.index(kb) + 1
+        t['files'] = copy.deepcopy(t['files'])
+        t['files']['inters'] = [x for x in t['files']['inters'] if sorted(x['atoms']) != sorted([ia, ib]) or len(x['params']) != 3
+                                or not x['sec'].endswith(':bonds')]
+
+    cases = [('identical', s2, 'ok'), ('atoms', tamper(t_atoms), 'atoms'), ('coordinates', tamper(t_coord), 'coordinates not following the motion'),
+             ('partition', tamper(t_part), 'molecule partition'), ('bonds', tamper(t_edge), 'bonds'),
+             ('interactions', tamper(t_inter), 'interactions'), ('interaction on the threshold list', tamper(t_inter_listed), 'admitted')]
+    cli_v, stage_v = judge([(r, r, IDENT), (r, bad, IDENT), (r, bad2, IDENT)], [[(s1, t, motion) for _, t, _ in cases]], ev, 'selftest')
+    assert cli_v[0]['st'] == 'ok' and cli_v[1]['st'] != 'ok' and cli_v[2]['st'] != 'ok', cli_v
+    print('selftest C11: tampered file-level pairs rejected:', cli_v[1]['st'], '/', cli_v[2]['st'])
+    expect_stage = {'atoms': i_map, 'coordinates': i_avg, 'partition': i_mb, 'bonds': i_mb, 'interactions': i_rb}
+    for k, (label, _, how) in enumerate(cases):
+        v = _tidy(stage_v[(0, k)])
+        brief = {x: v.get(x) for x in ('st', 'stage', 'name', 'how', 'adm', 'files')}
+        if how == 'ok':
+            assert v['st'] == 'ok' and v['adm'] == 0 and v['files'] == 'ok', brief
+        elif how == 'admitted':
+            assert v['st'] == 'ok' and v['adm'] == 1 and v['files'] == 'ok-admissible', brief
+        else:
+            assert v['st'] == 'differs' and v['how'] == how and v['stage'] == expect_stage[label] + 1, (label, brief)
+        print('selftest C11: %-34s -> %s' % (label, brief))
     return 0
